@@ -62,7 +62,8 @@ structure Cfg where
   k2 : Kind                    -- second credential tested
   limit : Kind → Nat           -- the N of `if <kind>_count > N: raise`
   handler : Bool               -- the loop calls `_ssh_message_handler`
-  catchErr : Bool              -- `except ScrapliConnectionError: send_return(); continue`
+  catchErr : Bool              -- the loop has an `except ScrapliConnectionError:` branch around read()
+  errBranch : List ErrStmt     -- ... and these are its statements (sync_channel.py:372-379)
   kicks : Bool                 -- `if not buf: if elapsed > return_interval * return_attempts: send_return()`
   ivl : Nat                    -- return_interval (= timeout_ops / returnDivisor)
 
@@ -73,6 +74,15 @@ def chanRead (raw : Bytes) : Bytes := raw.filter (· != 13)
 /-- `self.send_return(); return_attempts += 1` (sync_channel.py:377-378, 386-387) -/
 def kick (s : St) : St :=
   { s with log := s.log ++ [⟨.ret, [], true, s.nread⟩], attempts := s.attempts + 1 }
+
+/-- the body of the `except ScrapliConnectionError:` branch, statement by statement -/
+def execErr : List ErrStmt → St → St
+  | [], s => s
+  | .sendReturn :: r, s => execErr r { s with log := s.log ++ [⟨.ret, [], true, s.nread⟩] }
+  | .bumpAttempts :: r, s => execErr r { s with attempts := s.attempts + 1 }
+  | .clearBuf :: r, s => execErr r { s with buf := [] }
+  | .resetCount k :: r, s => execErr r { s with cnt := fun j => if j = k then 0 else s.cnt j }
+  | .cont :: _, s => s
 
 /-- one credential block, e.g. sync_channel.py:391-403:
     `if re.search(pattern, buf): buf = b""; count += 1; if count > N: raise; write(cred); send_return()`.
@@ -96,7 +106,7 @@ def step (c : Cfg) (s : St) (r : Read) : St :=
   if s.status != .running then s else
   let s := { s with nread := s.nread + 1 }
   match r with
-  | .connErr => if c.catchErr then kick s else { s with status := .connError }
+  | .connErr => if c.catchErr then execErr c.errBranch s else { s with status := .connError }
   | .chunk raw t =>
     let b := chanRead raw
     let s := if c.kicks && b.isEmpty && decide (t > c.ivl * s.attempts) then kick s else s
@@ -132,7 +142,7 @@ def cfgOf (l : Loop) (P : Kind → Bytes → Bool) (pr : Bytes → Bool) (ivl : 
   { P := P, prompt := pr, fatal := fatalMsg,
     k1 := (Gen.Auth.orderOf l).1, k2 := (Gen.Auth.orderOf l).2,
     limit := Gen.Auth.limitOf l, handler := Gen.Auth.hasHandler l,
-    catchErr := Gen.Auth.catchesConnErr l, kicks := Gen.Auth.kicksOnEmpty l, ivl := ivl }
+    catchErr := Gen.Auth.catchesConnErr l, errBranch := Gen.Auth.connErrBranch l, kicks := Gen.Auth.kicksOnEmpty l, ivl := ivl }
 
 /-- loop `l` with all defaults of BaseChannelArgs -/
 def defaultCfg (l : Loop) (pr : PromptPat) (ivl : Nat) : Cfg := cfgOf l defaultP pr.search ivl
